@@ -1159,12 +1159,253 @@ KFNS = [
         defs=['Qs.Broker.makeTxn', 'Qs.FeeModel.totalCost', 'Qs.Order.direction', 'Qs.dirOf']),
 ]
 
+# ------------------------------------------------------------------------------------------------------------
+# effect units: a method is run to its end; what it leaves behind (attribute values, the event it appended to the
+# history, the exception it raised) is printed as a flat "view" record and compared with the same view of the model
+
+class ForeignClass:
+    """a class of another module whose constructor / classmethods are executed symbolically (e.g. PortfolioEvent)"""
+
+    def __init__(self, path, cls, init_types):
+        self.path, self.cls, self.init_types = path, cls, init_types
+        self.cu = None
+
+    def unit(self):
+        if self.cu is None:
+            self.cu = ClassUnit(self.path, self.cls, {})
+            init = self.cu.methods.get('__init__')
+            if init is None:
+                raise Untranslatable('%s.__init__ not found' % self.cls)
+            self.init_params = [a.arg for a in init.args.args][1:]
+            # the constructor must store every parameter under its own name (checked, not assumed)
+            stored = {}
+            for st in init.body:
+                if is_noop_stmt(st):
+                    continue
+                if isinstance(st, ast.Assign) and len(st.targets) == 1 and isinstance(st.targets[0], ast.Attribute) and \
+                        isinstance(st.value, ast.Name):
+                    stored[st.targets[0].attr] = st.value.id
+                else:
+                    raise Untranslatable('%s.__init__ does more than store its arguments' % self.cls)
+            for p_ in self.init_params:
+                if stored.get(p_) != p_:
+                    raise Untranslatable('%s.__init__ does not store %s under its own name' % (self.cls, p_))
+        return self.cu
+
+    def construct(self, args, kw):
+        self.unit()
+        vals = {}
+        for nm, a in zip(self.init_params, args):
+            vals[nm] = a
+        for k, v in kw.items():
+            if k in vals or k not in self.init_params:
+                raise Untranslatable('%s(...) argument %s' % (self.cls, k))
+            vals[k] = v
+        if sorted(vals) != sorted(self.init_params):
+            raise Untranslatable('%s(...) call shape' % self.cls)
+        flds = []
+        for nm in self.init_params:
+            t = self.init_types.get(nm)
+            v = vals[nm]
+            if t is None:
+                continue                      # not part of the view (e.g. a formatted description)
+            if v[0] == 'opaque':
+                raise Untranslatable('%s.%s is not modelled (%s)' % (self.cls, nm, v[1]))
+            got = ty_of(v)
+            if got != t and not (t == 'num' and got == 'int'):
+                raise Untranslatable('%s.%s : %s given a %s' % (self.cls, nm, t, got))
+            flds.append((nm, t, v))
+        return ('struct', self.cls, flds)
+
+    def handler(self):
+        fc = self
+
+        def h(cu, n, ctx, depth):
+            f = n.func
+            def lazy(x):
+                try:
+                    return cu.ev(x, ctx, depth)
+                except Untranslatable as e:
+                    return ('opaque', str(e))
+            args = [lazy(a) for a in n.args]
+            kw = {k.arg: lazy(k.value) for k in n.keywords}
+            if isinstance(f, ast.Name):
+                return fc.construct(args, kw)
+            # classmethod: run it in the foreign class with `cls(...)` building the struct
+            u = fc.unit()
+            meth = f.attr
+            if meth not in u.methods:
+                raise Untranslatable('%s.%s not found' % (fc.cls, meth))
+            orig = u.ev_call
+
+            def ev_call(n2, ctx2, depth2):
+                if isinstance(n2.func, ast.Name) and n2.func.id == 'cls':
+                    a2 = [u.ev(a, ctx2, depth2) for a in n2.args]
+                    k2 = {k.arg: u.ev(k.value, ctx2, depth2) for k in n2.keywords}
+                    return fc.construct(a2, k2)
+                return orig(n2, ctx2, depth2)
+            u.ev_call = ev_call
+            try:
+                c0 = Ctx(u, {}, {})
+                c0.self_name = 'cls'
+                if any(a[0] == 'opaque' for a in args) or kw:
+                    raise Untranslatable('arguments of %s.%s' % (fc.cls, meth))
+                tree = u.run_method(meth, args, {}, c0, depth + 1)
+                return u.tree_to_expr(tree, c0)
+            finally:
+                u.ev_call = orig
+        return h
+
+
+class EFn:
+    def __init__(self, key, path, cls, py, lean, binders, fields, params, statement, defs, foreign=(), raise_calls=(), view=None,
+                 obj_types=None, event_attr='history', event_cls='PortfolioEvent'):
+        self.key, self.path, self.cls, self.py, self.lean = key, path, cls, py, lean
+        self.binders, self.fields, self.params = binders, fields, params
+        self.statement, self.defs = statement, defs
+        self.foreign = list(foreign)          # [(callee suffix, ForeignClass)]
+        self.raise_calls = list(raise_calls)  # [(callee suffix, boolean binder)]: calls for effect that may raise
+        self.view = view
+        self.obj_types = obj_types or {}
+        self.event_attr, self.event_cls = event_attr, event_cls
+
+
+def run_effects(cu, stmts, ctx, fn, depth=0):
+    """like ClassUnit.run, but: values the translator cannot read become opaque (an error only if used); `self.history.append(e)`
+    records the event; listed calls for effect branch on a boolean parameter (False = the call raised)"""
+    stmts = [s for s in stmts if not is_noop_stmt(s)]
+    if not stmts:
+        return ('ret', None, ctx)
+    s, rest = stmts[0], stmts[1:]
+    if isinstance(s, (ast.Assign, ast.AugAssign)):
+        tgt = s.targets[0] if isinstance(s, ast.Assign) else s.target
+        if isinstance(s, ast.Assign) and len(s.targets) != 1:
+            raise Untranslatable('multiple assignment')
+        is_attr = isinstance(tgt, ast.Attribute) and isinstance(tgt.value, ast.Name) and tgt.value.id == ctx.self_name
+        try:
+            if isinstance(s, ast.Assign):
+                val = cu.ev(s.value, ctx, depth)
+            else:
+                ops = {ast.Add: '+', ast.Sub: '-', ast.Mult: '*', ast.Div: '/'}
+                val = ('bin', ops[type(s.op)], cu.ev(s.target, ctx, depth), cu.ev(s.value, ctx, depth))
+            if val[0] not in ('struct', 'tup', 'lst', 'nan'):
+                ty_of(val)
+        except (Untranslatable, KeyError) as e:
+            if is_attr and tgt.attr in cu.attr_types:
+                raise
+            val = ('opaque', str(e))
+        if isinstance(tgt, ast.Name):
+            ctx.locs[tgt.id] = val
+        elif is_attr and tgt.attr in cu.attr_types:
+            cu.assign(tgt, val, ctx)
+        elif is_attr:
+            pass                                   # an attribute outside the view
+        else:
+            raise Untranslatable('assignment target %s' % ast.unparse(tgt))
+        return run_effects(cu, rest, ctx, fn, depth)
+    if isinstance(s, ast.If):
+        c = cu.truth(cu.ev(s.test, ctx, depth))
+        if c[0] == 'blit':
+            return run_effects(cu, (list(s.body) if c[1] else list(s.orelse)) + rest, ctx, fn, depth)
+        return ('if', c, run_effects(cu, list(s.body) + rest, ctx.copy(), fn, depth), run_effects(cu, list(s.orelse) + rest, ctx.copy(), fn, depth))
+    if isinstance(s, ast.Return):
+        return ('ret', None, ctx)
+    if isinstance(s, ast.Raise):
+        return ('raise', 'ValueError', ctx)
+    if isinstance(s, ast.Expr) and isinstance(s.value, ast.Call):
+        ftxt = ast.unparse(s.value.func)
+        if ftxt == '%s.%s.append' % (ctx.self_name, fn.event_attr) and len(s.value.args) == 1:
+            ev = cu.ev(s.value.args[0], ctx, depth)
+            if ev[0] != 'struct' or ev[1] != fn.event_cls:
+                raise Untranslatable('the appended event is not a %s(...)' % fn.event_cls)
+            if ctx.fields.get('__event__') is not None:
+                raise Untranslatable('two events appended')
+            ctx.fields['__event__'] = ev
+            return run_effects(cu, rest, ctx, fn, depth)
+        for suf, flag in fn.raise_calls:
+            if ftxt.endswith(suf):
+                c2 = ctx.copy()
+                # the callee's own outcome is a parameter: `none` = it returned, `some e` = it raised e (which propagates)
+                return ('if', V('%s.isNone' % flag, 'bool'), run_effects(cu, rest, ctx, fn, depth), ('raise', 'DYN:' + flag, c2))
+        raise Untranslatable('statement call %s' % ftxt)
+    raise Untranslatable('statement %s' % type(s).__name__)
+
+
+def translate_efn(fn):
+    try:
+        cu = ClassUnit(fn.path, fn.cls, {a: ty_of(v) for a, v in fn.fields.items()}, fn.obj_types)
+        cu.call_subst = [(suf, fc.handler()) for suf, fc in fn.foreign]
+        if fn.py not in cu.methods:
+            raise Untranslatable('method %s.%s not found' % (fn.cls, fn.py))
+        m = cu.methods[fn.py]
+        pyparams = [a.arg for a in m.args.args][1:]
+        if pyparams != [p for p, _ in fn.params]:
+            raise Untranslatable('signature of %s is (%s)' % (fn.py, ', '.join(pyparams)))
+        fields = dict(fn.fields)
+        fields['__event__'] = None
+        ctx = Ctx(cu, dict(fields), {p: v for p, v in fn.params})
+        tree = run_effects(cu, list(m.body), ctx, fn)
+
+        def leaf(t):
+            f = t[2].fields
+            ev = f.get('__event__')
+            parts = ['err := %s' % ((t[1][4:] if t[1].startswith('DYN:') else 'some .value') if t[0] == 'raise' else 'none')]
+            for a, v0 in fn.fields.items():
+                parts.append('%s := %s' % (fn.view[a], as_num(f[a]) if ty_of(v0) == 'num' else pr(f[a])))
+            if ev is None:
+                parts += ['appended := false', 'evTime := 0', 'evKind := ""', 'evDebit := (ofInt (0 : Int))', 'evCredit := (ofInt (0 : Int))',
+                          'evBalance := (ofInt (0 : Int))']
+            else:
+                d = {nm: v for nm, t_, v in ev[2]}
+                parts += ['appended := true', 'evTime := %s' % pr(d['dt']), 'evKind := %s' % pr(d['type']), 'evDebit := %s' % as_num(d['debit']),
+                          'evCredit := %s' % as_num(d['credit']), 'evBalance := %s' % as_num(d['balance'])]
+            return '{ ' + ', '.join(parts) + ' }'
+        binders = ''.join(' (%s : %s)' % b for b in fn.binders)
+        body = pr_tree(tree, leaf, 1)
+        return 'def %s%s : Qs.Gen.PfView α :=\n  %s\n' % (fn.lean.split('.')[-1], binders, body), None
+    except Untranslatable as e:
+        return None, str(e)
+    except (RecursionError, KeyError, IndexError) as e:
+        return None, 'translator limit: %s' % type(e).__name__
+
+
+PEVENT = ForeignClass('qstrader/broker/portfolio/portfolio_event.py', 'PortfolioEvent',
+                      dict(dt='int', type='str', debit='num', credit='num', balance='num'))
+PF_FIELDS = dict(current_dt=V('clock', 'int'), cash=V('cash', 'num'))
+PF_VIEW = dict(current_dt='clock', cash='cash')
+PF_DEFS = ['Qs.Gen.pfView', 'Qs.Portfolio.subscribe', 'Qs.Portfolio.withdraw', 'Qs.Portfolio.transactAsset', 'Qs.EventKind.name', 'Qs.dirOf']
+TXN_OBJ = dict(Txn=dict(asset=('asset', 'str'), quantity=('qty', 'int'), dt=('time', 'int'), price=('price', 'num'),
+                        commission=('commission', 'num'),
+                        direction=(lambda base: ('ite', ('cmp', '<', V('%s.qty' % pr(base), 'int'), ('lit', Fraction(0), 'int')),
+                                                 ('lit', Fraction(-1), 'int'), ('lit', Fraction(1), 'int')), 'int')))
+
+EFNS = [
+    EFn('Portfolio.subscribe', 'qstrader/broker/portfolio/portfolio.py', 'Portfolio', 'subscribe_funds', 'Portfolio.subscribe',
+        binders=[('clock', 'Int'), ('cash', 'α'), ('t', 'Int'), ('amount', 'α')], fields=PF_FIELDS, view=PF_VIEW,
+        params=[('dt', V('t', 'int')), ('amount', V('amount', 'num'))], foreign=[('PortfolioEvent.create_subscription', PEVENT), ('PortfolioEvent', PEVENT)],
+        statement='(p : Qs.Portfolio α) (t : Int) (amount : α) :\n    Qs.Gen.pfView p (Qs.Portfolio.subscribe p t amount) = GEN p.clock p.cash t amount',
+        defs=PF_DEFS),
+    EFn('Portfolio.withdraw', 'qstrader/broker/portfolio/portfolio.py', 'Portfolio', 'withdraw_funds', 'Portfolio.withdraw',
+        binders=[('clock', 'Int'), ('cash', 'α'), ('t', 'Int'), ('amount', 'α')], fields=PF_FIELDS, view=PF_VIEW,
+        params=[('dt', V('t', 'int')), ('amount', V('amount', 'num'))], foreign=[('PortfolioEvent.create_withdrawal', PEVENT), ('PortfolioEvent', PEVENT)],
+        statement='(p : Qs.Portfolio α) (t : Int) (amount : α) :\n    Qs.Gen.pfView p (Qs.Portfolio.withdraw p t amount) = GEN p.clock p.cash t amount',
+        defs=PF_DEFS),
+    EFn('Portfolio.transactAsset', 'qstrader/broker/portfolio/portfolio.py', 'Portfolio', 'transact_asset', 'Portfolio.transactAsset',
+        binders=[('clock', 'Int'), ('cash', 'α'), ('t', 'Qs.Txn α'), ('posErr', 'Option Err')], fields=PF_FIELDS, view=PF_VIEW,
+        params=[('txn', V('t', 'obj:Txn'))], foreign=[('PortfolioEvent', PEVENT)], obj_types=TXN_OBJ,
+        raise_calls=[('pos_handler.transact_position', 'posErr')],
+        statement='(p : Qs.Portfolio α) (t : Qs.Txn α) :\n    Qs.Gen.pfView p (Qs.Portfolio.transactAsset p t) = '
+                  'GEN p.clock p.cash t (p.positions.transactPosition t).2',
+        defs=PF_DEFS),
+]
+
 KHEADER = """/-
   GENERATED by harness/translate.py from the working tree of the repository — do not edit.
   Fee models, the per-asset sizing kernels, weight normalisation and the fill kernel of the broker, read off the Python source.
 -/
 import QsModel.Sizer
 import QsModel.Broker
+import QsGen.Views
 
 namespace Qs.Gen
 open NumOps Num
@@ -1199,6 +1440,9 @@ TIE_HEAD = ('/-\n  GENERATED by harness/translate.py — the tie obligations `Ge
             'set_option linter.unusedSimpArgs false\nset_option linter.unusedVariables false\n\nopen NumOps Num\n\n'
             'namespace Qs.Tie\n\n'
             'variable {α : Type} [Field α] [LinearOrder α] [IsStrictOrderedRing α] [FloorRing α] [NumOps α] [LawfulNumOps α]\n\n')
+
+
+PFVIEW_COMPONENTS = ['err', 'clock', 'cash', 'appended', 'evTime', 'evKind', 'evDebit', 'evCredit', 'evBalance']
 
 
 def projections(u, fn):
@@ -1294,6 +1538,38 @@ def generate(outdir=None, verbose=False, omit_defs=(), omit_thms=()):
                 name, fn.statement.replace('GEN', 'Qs.Gen.' + fn.lean), ', '.join(core), ', '.join(core))
             ent['thm_span'] = [t0, tie.count('\n')]
         status[fn.key] = ent
+    for fn in EFNS:
+        text, why = translate_efn(fn)
+        if text is not None and fn.key in omit_defs:
+            text, why = None, 'the generated definition does not typecheck'
+        if text is None:
+            status[fn.key] = dict(translated=False, reason=why, python='%s.%s' % (fn.cls, fn.py), file=fn.path, unit='Kernels')
+            gen += '-- %s.%s: not translatable (%s)\n\n' % (fn.cls, fn.py, why)
+            for comp in PFVIEW_COMPONENTS:
+                status[fn.key + '#' + comp] = dict(status[fn.key])
+            continue
+        ns, nm = fn.lean.split('.')
+        g0 = gen.count('\n') + 1
+        gen += 'namespace %s\n/-- effects of `%s.%s` -/\n%send %s\n\n' % (ns, fn.cls, fn.py, text, ns)
+        g1 = gen.count('\n')
+        core = ['Qs.Gen.' + fn.lean] + fn.defs
+        stmt = fn.statement.replace('GEN', 'Qs.Gen.' + fn.lean)
+        head, eq = stmt.rsplit(':\n', 1)
+        lhs, rhs = eq.strip().split(' = ', 1)
+        items = [(fn.key, 'tie_%s_%s' % (ns, nm), stmt)] + [
+            (fn.key + '#' + comp, 'tie_%s_%s__%s' % (ns, nm, comp), '%s:\n    (%s).%s = (%s).%s' % (head, lhs, comp, rhs, comp))
+            for comp in PFVIEW_COMPONENTS]
+        for k2, name, st_ in items:
+            full = 'Qs.Tie.' + name
+            ent = dict(translated=True, python='%s.%s' % (fn.cls, fn.py), file=fn.path, unit='Kernels', theorem=full, def_span=[g0, g1])
+            if full in omit_thms:
+                ent['proved'] = False
+                tie += '-- %s: the proof does not check against the current source\n\n' % name
+            else:
+                t0 = tie.count('\n') + 1
+                tie += 'theorem %s %s := by\n  qs_tie_view [%s]\n\n' % (name, st_, ', '.join(core))
+                ent['thm_span'] = [t0, tie.count('\n')]
+            status[k2] = ent
     gen += 'end\nend Qs.Gen\n'
     tie += 'end Qs.Tie\n'
     _write_if_changed(os.path.join(outdir, 'QsGen', 'Kernels.lean'), gen)
